@@ -195,8 +195,10 @@ def corpus_artefact(name, path):
     """Corpus grammar with P / () payloads: real generate, native build of the unshimmed module."""
     P = checks_emitted.prepare_grammar(name, path, 'e2nat')
     if P.error:
+        if P.gen.get('status') == 'err' and P.gen['err']['variant'] == 'TableConflict':
+            return None, None      # generate rejected the grammar: outside C01/C03's quantifier
         return None, P.error
-    if not checks_emitted.build_native(P, [0]):
+    if not checks_emitted.build_native_raw(P):
         return None, 'native build failed: ' + (P.native_error or '')[-500:]
     e = extract(P.gen['rust'])
     cfg = CFG(P.g)
@@ -231,7 +233,9 @@ def e2_corpus_files(tier, seed):
         out.append((os.path.basename(f)[:-5], f))
     style = dict(random_skip=True, payload='crate::payload::P')
     for name, exp, g in corpus_mod.curated(random.Random(seed + 11), style):
-        if exp != 'ok' or not g.terminals:
+        # every curated grammar, whatever its classification: the property speaks about every grammar that
+        # generate ACCEPTS (the reference circuit recognises any CFG, ambiguous or not)
+        if not g.terminals:
             continue
         if any(nt.name == 'S' for nt in g.nonterminals):
             # defect D6 (generic parameter S of parse captures a user type called S) is C05's business; rename
@@ -306,7 +310,8 @@ def corpus_artefacts(tier, R):
     for name, path in e2_corpus_files(tier, common.seed()):
         A, err = corpus_artefact(name, path)
         if A is None:
-            R.inconclusive.append('E2 corpus %s: %s' % (name, err))
+            if err is not None:
+                R.inconclusive.append('E2 corpus %s: %s' % (name, err))
         else:
             arts.append(A)
     return arts
